@@ -16,7 +16,7 @@ def obligations(L, tier):
         for ls in range(L + 1):
             for lr in range(L + 1):
                 obs.append(dict(id=f"{TY[order]}::{which} |stored|={ls} |requested|={lr}", order=order, which=which, ls=ls, lr=lr))
-    LP = 2 if tier == "quick" else 2
+    LP = 2
     for la in range(LP + 1):
         for lb in range(LP + 1):
             for lr in range(1, LP + 1):
@@ -174,7 +174,7 @@ def role_of(f):
 
 def run(tier, seed):
     ev = C.Evidence(PID, tier, seed, "model_checking")
-    L = 2 if tier == "quick" else 3
+    L = 3 if tier == "quick" else 4
     obs = obligations(L, tier)
     results = run_pool(obs, worker, seed=seed)
     tot = summarize(results)
